@@ -10,6 +10,7 @@ import (
 	"fmt"
 	"strings"
 	"time"
+	. "vh/kit"
 
 	"github.com/notaryproject/notation-core-go/revocation"
 	"github.com/notaryproject/notation-core-go/revocation/purpose"
@@ -23,7 +24,7 @@ import (
 	ocispec "github.com/opencontainers/image-spec/specs-go/v1"
 )
 
-func init() { register("c05", runC05) }
+func main() { Main("c05", runC05) }
 
 var c05ResNames = []string{"ROK", "RNonRevokable", "RUnknown", "RRevoked", "ROther"}
 
@@ -88,8 +89,8 @@ func runC05(a *Args) error {
 		}
 		e := &c05Env{env: map[string][]byte{}}
 		e.chain = NewChain(fmt.Sprintf("c05n%d", n), n, now.Add(-48*time.Hour), now.Add(48*time.Hour))
-		e.desc = ocispec.Descriptor{MediaType: "application/vnd.oci.image.manifest.v1+json", Digest: digest.Digest(strings.TrimPrefix(testRef, testScope+"@")), Size: 528}
-		for _, f := range []string{mtJWS, mtCOSE} {
+		e.desc = ocispec.Descriptor{MediaType: "application/vnd.oci.image.manifest.v1+json", Digest: digest.Digest(strings.TrimPrefix(TestRef, TestScope+"@")), Size: 528}
+		for _, f := range []string{MtJWS, MtCOSE} {
 			for _, sc := range []signature.SigningScheme{signature.SigningSchemeX509, signature.SigningSchemeX509SigningAuthority} {
 				b, err := SignEnvelope(EnvSpec{Format: f, Chain: e.chain, Payload: PayloadFor(e.desc), Scheme: sc, SigningTime: now.Add(-time.Hour)})
 				if err != nil {
@@ -102,7 +103,7 @@ func runC05(a *Args) error {
 		root := e.chain[len(e.chain)-1].C
 		e.store.Put(truststore.TypeCA, "s", root)
 		e.store.Put(truststore.TypeSigningAuthority, "s", root)
-		e.subjs = subjects(e.chain.Certs())
+		e.subjs = Subjects(e.chain.Certs())
 		// oracle for the library default validator (no OCSP/CRL URLs in these certificates)
 		dv, err := revocation.NewWithOptions(revocation.Options{CertChainPurpose: purpose.CodeSigning})
 		if err != nil {
@@ -179,11 +180,11 @@ func runC05(a *Args) error {
 		if err != nil {
 			panic(fmt.Sprintf("c05: verifier construction: %v", err))
 		}
-		outcome, verr2 := v.Verify(context.Background(), e.desc, e.env[c.Format+"|"+string(scheme)], notation.VerifierVerifyOptions{ArtifactReference: testRef, SignatureMediaType: c.Format})
+		outcome, verr2 := v.Verify(context.Background(), e.desc, e.env[c.Format+"|"+string(scheme)], notation.VerifierVerifyOptions{ArtifactReference: TestRef, SignatureMediaType: c.Format})
 		// observation
 		var callTerms []string
 		for _, k := range *calls {
-			callTerms = append(callTerms, CApp("mk_call", CN(int64(k.Which)), CStrList(subjects(k.Chain)), CBool(k.TimeSet)))
+			callTerms = append(callTerms, CApp("mk_call", CN(int64(k.Which)), CStrList(Subjects(k.Chain)), CBool(k.TimeSet)))
 			c.Calls = append(c.Calls, fmt.Sprintf("%d:%d certs:time=%v", k.Which, len(k.Chain), k.TimeSet))
 		}
 		resTerm := "None"
@@ -196,7 +197,7 @@ func runC05(a *Args) error {
 				c.Result, resTerm = "Pass", "(Some Pass)"
 			} else {
 				msg := r.Error.Error()
-				subj, _ := firstQuoted(msg)
+				subj, _ := FirstQuoted(msg)
 				switch {
 				case strings.Contains(msg, "is revoked"):
 					c.Result, resTerm = "Revoked:"+subj, CSome(CApp("Revoked", CStr(subj)))
@@ -230,7 +231,7 @@ func runC05(a *Args) error {
 		w.Count("rejected", fmt.Sprint(c.Rejected))
 	}
 
-	formats := []string{mtJWS, mtCOSE}
+	formats := []string{MtJWS, MtCOSE}
 	actions := []string{"Enforce", "Log", "Skip"}
 	levels := []string{"strict", "permissive", "audit"}
 	vectors := func(n, base int, f func(v []int)) {
